@@ -43,6 +43,12 @@ def run(ctx):
     run_hm(ctx, jobs, pb=2 if q else 3, max_exec=700 if q else 20000)
     if not q:
         run_hm(ctx, jobs, pb=5, max_exec=0, mode='random', runs=600, tagx='r')
+    # S: the impl spec HarrisMichael is bound to the code at the grain of single atomic accesses (link words: null / non-null and delete mark)
+    from props.c03 import step_bind
+    keeph = lambda r: r.get('fn', '').startswith('harris_michael_list_based_set::') and 'node::' not in r.get('fn', '')
+    hc = hm_models.hm_consts(NNodes=6, Keys0Set='={1, 3}', KeySet='={1, 2, 3}', MaxOps=3)
+    for rc, prog in ([('nebr0', 'emp2,era1;con2,era3')] if q else [('nebr0', 'emp2,era1;con2,era3'), ('hp3', 'emp2,era1;con2,era3'), ('stamp', 'era1,emp2;era1,con3'), ('nebr0', 'era3,emp3;emp2,era3,con1')]):
+        step_bind(ctx, 'HarrisMichael', 'hm', ['set/%s;emp1,emp3;%s' % (rc, prog)], hc, pb=2, max_exec=80 if q else 3000, keep=keeph)
     for r in ctx.tv[:3]:
         ctx.samples.append({'driver': 'hm', 'history': canonical_sample(execution_lines(r['trace'], 2), 70)})
     return finish(ctx,
